@@ -166,6 +166,9 @@ class AsyncHTTP2Connection(AsyncConnectionInterface):
                 try:
                     stream_id = self._h2_state.get_next_available_stream_id()
                     self._events[stream_id] = []
+                    # Nothing has been sent for the stream yet: if the request
+                    # ends before its headers are, it must not be reset.
+                    self._unsent_stream_ids.add(stream_id)
                 except h2.exceptions.NoAvailableStreamIDError:  # pragma: nocover
                     self._used_all_stream_ids = True
                     self._request_count -= 1
@@ -302,10 +305,6 @@ class AsyncHTTP2Connection(AsyncConnectionInterface):
         Send the request headers to a given stream ID.
         """
         end_stream = not has_body_headers(request)
-
-        # Nothing is sent for this stream until the headers have been handed
-        # to the h2 state. If that does not happen it must not be reset either.
-        self._unsent_stream_ids.add(stream_id)
 
         if self._connection_error:
             # A request that was admitted earlier, and has been waiting for its
